@@ -29,6 +29,7 @@ type VerifPendingRead struct {
 	OperationType  OperationType
 	ReadIndex      uint64
 	QuorumVerified bool
+	Sequence       uint64
 }
 
 // VerifState is a copy of the protocol-relevant state of a node.
@@ -53,6 +54,8 @@ type VerifState struct {
 	SnapshotMetadata       SnapshotMetadata
 	ConfigurationPending   bool
 	ConfigurationWaitIndex uint64
+	PrevoteWon             bool
+	ReadSequence           uint64
 }
 
 func verifCloneConfiguration(c *Configuration) *Configuration {
@@ -86,6 +89,8 @@ func (r *Raft) VerifGetState() VerifState {
 		SnapshotOpen:           r.snapshot != nil,
 		ConfigurationPending:   r.configurationResponseCh != nil,
 		ConfigurationWaitIndex: r.configurationResponseIndex,
+		PrevoteWon:             r.prevoteWon,
+		ReadSequence:           r.operationManager.readSequence,
 	}
 	for id, f := range r.followers {
 		s.Followers[id] = VerifFollower{
@@ -106,6 +111,7 @@ func (r *Raft) VerifGetState() VerifState {
 			OperationType:  operation.OperationType,
 			ReadIndex:      operation.readIndex,
 			QuorumVerified: operation.quorumVerified,
+			Sequence:       operation.sequence,
 		})
 	}
 	if r.snapshot != nil {
@@ -134,6 +140,8 @@ func (r *Raft) VerifSetState(s VerifState) {
 	r.lastContact = s.LastContact
 	r.operationManager.leaderLease.expiration = s.LeaseExpiration
 	r.operationManager.shouldVerifyQuorum = s.ShouldVerifyQuorum
+	r.operationManager.readSequence = s.ReadSequence
+	r.prevoteWon = s.PrevoteWon
 	if s.Followers != nil {
 		r.followers = make(map[string]*follower, len(s.Followers))
 		for id, f := range s.Followers {
